@@ -350,6 +350,11 @@ def _normalise_syntax(tree):
         return out
 
     tree.body = block(tree.body)
+    # guard clauses: `if c: ...; return a` + REST  ->  `if c: ...; return a  else: REST` (one tree shape for both spellings)
+    if os.environ.get("SA_NO_TAIL_FORM") != "1":
+        for fn_ in [n for n in ast.walk(tree) if isinstance(n, (ast.FunctionDef, ast.AsyncFunctionDef))]:
+            if not any(isinstance(x, (ast.Yield, ast.YieldFrom)) for x in ast.walk(fn_)):
+                fn_.body = _to_tail_form(fn_.body)
 
     ast.fix_missing_locations(tree)
 
